@@ -34,13 +34,27 @@ CHECKS = [
   "Generated store-mode histories are executed by a child under an LD_PRELOAD journal of file mutations (open-create, write, pwrite, writev, ftruncate, rename, unlink, with per-descriptor offsets); for EVERY prefix of each journal the directory image is materialised and reopened with the real recovery code, and the clauses of the property are judged against what was submitted / durable before that prefix: recovery succeeds, log in order and contiguous above the newest pointer, all durable entries present, only submitted entries exposed, hard state / membership / addresses / last-applied equal to a written value, last_applied not past log + snapshot. Complete over crash prefixes per history (exhaustive per history), sampled over histories.",
   "Crash model as stated by the property (process death, atomic ordered writes, OS survives); one operation in flight at a time; store mode mirrors the catalogue messages of compaction, the full-node compaction/install journals are not enumerated here.",
   "fault injection by crash-point enumeration over proptest-generated histories (LD_PRELOAD mutation journal, every prefix recovered and judged)"),
+ chk("C07", "E2 scripted full node in child processes", "exploration",
+  "Three-way differential over generated committed sequences (all ClientRequest kinds, small overlapping key universes): node A commits them through a real single-node Raft (leader apply path); A's exact log entries are fed to node B with replicate_to_log + replicate_to_state_machine in generated batch splits (follower path); B restarted and A restarted give the start-up replay path. The four state dumps (config GET + history pages, listings, user-created namespaces, user rows, MCP servers and tool specs, persistent instances, membership/addresses, sequence counters) must be equal.",
+  "Cache entries and weak (derived) namespaces are not compared (cross-actor asynchronous derivation, timing dependent). Generated requests have the shapes real callers produce (namespace Update only on user-created namespaces, servers reference existing tool specs, Members only [1]).",
+  "property-based testing (proptest): differential oracle across three apply paths in real node processes"),
+ chk("C01", "E2 scripted full node in child processes", "exploration",
+  "Generated histories of ClientRequests on a real single-node Raft node with awaited / concurrent / Raft-core-triggered / interrupted compactions and restarts (real process boundaries). Oracle 1: dump(before stop) == dump(after restart) at every restart. Oracle 2 (metamorphic): the same requests on a fresh node without any restart or compaction end in the same served state. A failure that needs compaction concurrent with writes (its awaited variant passes) is the recorded known finding; anything else is a violation.",
+  "Stop points after the write barrier. With concurrent compaction sequence counters may only move forward. Compactions never overlap (as in the Raft core).",
+  "property-based testing (proptest): restart differential + metamorphic reference run in real node processes"),
+ chk("C14", "E1 real InnerNodeManage actors, genuine 15 s liveness timer", "fault_enumeration",
+  "Every cluster view n=1..5 (thorough 1..7) x every non-empty alive set x every local id is built from real InnerNodeManage actors whose own liveness rule marks starved peers invalid; for thousands of generated service keys exactly one live node owns the key (QueryOwnerRange), every live node routes it (NodeManage::route_addr) to that same node, and liveness follows the 15 s rule. A second phase revives the dead nodes; a timer-free tier sweeps membership change sequences. Configurations are enumerated exhaustively, keys are generated.",
+  "Owner = QueryOwnerRange[0] of each node; NamingActor's own copy of the range is not observed (DESIGN F8). Transient windows shorter than one 3 s tick are not decided.",
+  "exhaustive configuration enumeration + property-based key generation (proptest) against an exactly-one-owner / routing-agrees oracle"),
 ]
 
 ENGINES = [
- {"name": "E1", "path": "harness/src", "serves_properties": ["C20", "C02", "C03", "C05"],
+ {"name": "E1", "path": "harness/src", "serves_properties": ["C20", "C02", "C03", "C05", "C14"],
   "kind_free_text": "in-process proptest model-based / round-trip checks linked against /repo as a library (fresh actix System per phase for the file-store actor chain)"},
  {"name": "E5", "path": "interpose/journal.c + harness/src/c04.rs", "serves_properties": ["C04"],
   "kind_free_text": "LD_PRELOAD journal of file mutations in a recorder child; parent materialises every journal prefix and runs the real recovery code on it"},
+ {"name": "E2", "path": "harness/src/node.rs", "serves_properties": ["C01", "C07"],
+  "kind_free_text": "scripted full node (starter::config_factory + build_share_data) in a child process per phase: leader path through the real Raft, follower path through RaftStorage calls, restart = new process"},
 ]
 
 def main():
